@@ -249,7 +249,9 @@ PROPS["C10"] = {
             "the fix recorded for C10, refuted by witness for the loop before it: M=2, backlog 5, 5 executions), started = finished + "
             "in progress, once M have finished the stop event is set, and a message taken beyond the limit goes back to its queue "
             "unchanged with nothing started or counted. Tie: ~260 real Worker(messages_limit=M) runs per quick run (M 1-5, backlog "
-            "M..M+10, 1-3 queues, tasks_limit 1/M/>M, durations 0..400 ms, arrivals during the run), traces accepted by the model; "
+            "M..M+10, 1-3 queues, tasks_limit 1/M/>M, durations 0..400 ms, arrivals during the run; 30 % over a consumer whose pause() / "
+            "unpause() are round trips of 0.5-50 ms), traces accepted by the model; the stop is decided on executions STARTED (fix "
+            "f5e55c6 recorded; C10_old_stop_condition_fires_early); "
             "oracle: executions <= M, run returns, M finish, surplus messages waiting unchanged; run-on-enqueue mode (M = 1).",
     "note": RUNNER_NOTE + "Reaching the limit starts the documented graceful shutdown: an in-flight actor that outlives the graceful "
             "period is cancelled and its message rejected (C03), not counted against C10.",
